@@ -1,4 +1,5 @@
 import Cinco.Props.C07
+import Cinco.Generated.KeyFileShape
 /-
   C07 (continuation) — sessions over whole histories.
   C07's theorems are per step (`kf_verbatim`, `kf_created`, `kf_bad_rejected`, `kf_closed`) plus the invariant along every properly
@@ -120,5 +121,21 @@ theorem rotation_after_failed_open (bad k1 k2 : Bytes) (hb : bad.length ≠ 32) 
     with a closed object and a 32-byte file -/
 example : let s := (run (start { file := .data [1], tape := [] }) [.enter 0, .extWrite (List.replicate 32 7), .enter 0, .exit 0]).1
     s.objs[0]? = some ⟨none, 0⟩ ∧ s.world.file = .data (List.replicate 32 7) := by decide
+
+/-- **the code order the model follows is the code order of /repo** (control skeleton of the `KeyFile` methods, regenerated from
+    `cincoconfig/encryption.py` on every run): `__enter__` loads only when no key is held and counts the context *after* a successful
+    load; `__exit__` counts down unconditionally — whichever way the block was left — and drops the key at zero; `encrypt` / `decrypt`
+    refuse before anything else when no key is held; `__load_key` reads the file, creates it only on `OSError`, validates what it
+    read and forgets it again when validation fails; `__generate_key` writes exactly the 32 random bytes it returns; the validation
+    is "present and 32 bytes long" -/
+theorem keyfile_code_order : Generated.keyFileShape =
+    [("__enter__", ["if[not key]", "load", "end", "refcount+=1"]),
+     ("__exit__", ["refcount-=1", "if[refcount==0]", "key=None", "end"]),
+     ("encrypt", ["if[not key]", "raise:TypeError", "end"]),
+     ("decrypt", ["if[not key]", "raise:TypeError", "end"]),
+     ("__load_key", ["try", "open:rb", "key=read", "close", "except:OSError", "key=generate", "else", "try", "validate",
+                     "except:EncryptionError", "key=None", "raise", "end", "end"]),
+     ("__generate_key", ["local key=urandom", "open:wb", "write key", "close", "return key"]),
+     ("_validate_key", ["if[?not self.__key or len(self.__key) != 32]", "raise:EncryptionError", "end"])] := by decide
 
 end Cinco.C07b
